@@ -67,7 +67,12 @@ def run_demo(base, d, demos, main_go):
         shutil.copy(demo, dst)
         placed.append((sub, dst))
     for sub in sorted(set(s for s, _ in placed)):
-        rc, out = run(["go", "test", "-vet=off", "-count=1", "-run", "Demo|C0|C1|C2|Test_Demo|TestC", "./" + sub], d)
+        names = []
+        for s2, dst in placed:
+            if s2 == sub:
+                names += re.findall(r"^func (Test\w+)\(", open(dst).read(), re.M)
+        pat = "^(" + "|".join(names) + ")$" if names else "Demo|C0|C1|C2|Test_Demo|TestC"
+        rc, out = run(["go", "test", "-vet=off", "-count=1", "-run", pat, "./" + sub], d)
         outs.append(out[-1500:])
         if rc != 0:
             failed = True
@@ -148,7 +153,7 @@ def do_check(sub=""):
     res = {}
     try:
         for name in sorted(os.listdir(os.path.join(HERE, "seeded"))):
-            if sub not in name:
+            if sub and not any(x in name for x in sub.split(",")):
                 continue
             sd = os.path.join(HERE, "seeded", name)
             if not os.path.exists(os.path.join(sd, "patch.diff")):
@@ -160,7 +165,7 @@ def do_check(sub=""):
                 continue
             fired = []
             for prop in implemented():
-                r = subprocess.run([os.path.join(HERE, "bin", "pfverify"), "-repo", d, "-verif", vdir, "-prop", prop], capture_output=True, text=True)
+                r = subprocess.run([os.environ.get("PFVERIFY_BIN", os.path.join(HERE, "bin", "pfverify")), "-repo", d, "-verif", vdir, "-prop", prop], capture_output=True, text=True)
                 if r.returncode == 2:
                     fired.append(prop + ":ERROR")
                 for line in r.stdout.splitlines():
@@ -175,7 +180,16 @@ def do_check(sub=""):
         shutil.rmtree(base, ignore_errors=True)
     caught = sum(1 for v in res.values() if v)
     print("%d/%d seeded changes reported" % (caught, len(res)))
-    json.dump(res, open(os.path.join(HERE, "seeded", "LAST_CHECK.json"), "w"), indent=1)
+    # merge into the stored results (a partial run must not forget the others)
+    path = os.path.join(HERE, "seeded", "LAST_CHECK.json")
+    allres = {}
+    if sub and os.path.exists(path):
+        try:
+            allres = json.load(open(path))
+        except Exception:
+            allres = {}
+    allres.update(res)
+    json.dump(allres, open(path, "w"), indent=1, sort_keys=True)
 
 
 if __name__ == "__main__":
